@@ -217,3 +217,45 @@ def congruence_axioms(op):
                 concl += _eq_terms(u, v) or []
             axs.append(z3.Implies(z3.And(*conds) if conds else z3.BoolVal(True), z3.And(*concl)))
     return axs
+
+
+# --------------------------------------------------------------------------
+# exceptions raised by the library on valid (assumption-respecting) inputs
+# --------------------------------------------------------------------------
+def guard_library_exceptions(run):
+    """decorator for Case.run: an ordinary exception whose innermost non-library frame lies in the repository
+    (an assert of the library failing, a KeyError in its bookkeeping ...) on a path of the symbolic run is turned
+    into the obligation 'no exception on valid input' for THAT path, so that the solver model of the path is
+    replayed on the real code (which raises too, or shows different values) instead of ending as a harness error.
+    Exceptions from harness/engine frames are re-raised (harness errors stay harness errors)."""
+    import functools
+    import traceback
+
+    @functools.wraps(run)
+    def wrapper(self, inp):
+        from . import core
+        try:
+            return run(self, inp)
+        except core.PreconditionFailed:
+            raise
+        except Exception as e:  # noqa  (vf.sym control-flow exceptions derive from BaseException)
+            tb = traceback.extract_tb(e.__traceback__)
+            last_own = max([i for i, f in enumerate(tb) if f.filename.startswith(core.ROOT)] or [-1])
+            last_repo = max([i for i, f in enumerate(tb) if f.filename.startswith(core.REPO + "/oqupy")] or [-1])
+            if last_repo <= last_own:
+                raise
+            info = "".join(traceback.format_list(tb[-3:]))[-700:] + "%s: %s" % (type(e).__name__, str(e)[:200])
+            cond = False
+            if inp.mode == "sym":
+                # ask the solver for a generic point of the path (non-zero start / shift): the symbolic run may raise
+                # for reasons that vanish at degenerate values (e.g. a dictionary key that changed by start_time = 0)
+                gen = []
+                for n, (kind, lo, hi) in inp.decl.items():
+                    if kind == "real" and n in ("startr", "taur"):
+                        gen.append(z3.Real(n) == 0)
+                if "startr" in inp.decl and "taur" in inp.decl:
+                    gen.append(z3.Real("startr") + z3.Real("taur") == 0)
+                cond = _sym.SB(z3.Or(*gen)) if gen else False
+            return [core.Ob.holds("no exception raised by the library on valid input", cond,
+                                  key="exception:%s" % type(e).__name__, info=info)]
+    return wrapper
